@@ -174,10 +174,7 @@ def clause_d(ctx, P):
     qc = calls_to(f, "Zeroconf::query_cache_for_service")
     sq = calls_to(f, "Zeroconf::send_query")
     ok = len(qc) == 1 and len(sq) == 1 and not reachable_without(f, qc[0][0], start=sq[0][0])
-    idx = None
-    for l in range(1, f.argc + 1):
-        if f.locals[l].get("name") == "repeating":
-            idx = l
+    idx = rerun_flag_param(P, f)
     e_first = guard_edges(P, f, lambda atom, outcome, bb: atom == ("param", idx) and outcome is False)
     ok2 = bool(qc) and bool(e_first)
     for (b, tgt) in e_first:
